@@ -76,7 +76,10 @@ func c07Exec(c *core.Ctx, cs c07Case) {
 			if err != nil {
 				com = nil
 			}
-			rf = ref{gen.Expect(u.Prog), commentTextsOf(com), true}
+			rf = ref{"", commentTextsOf(com), true}
+			if u.Prog != nil {
+				rf.skel = gen.Expect(u.Prog)
+			}
 		} else {
 			_, com, _ := parseAll("c07", u.Text)
 			rf = ref{"", commentTextsOf(com), true}
@@ -133,7 +136,10 @@ func c07Exec(c *core.Ctx, cs c07Case) {
 			c.Violation("covered-too-much", key, "one call = one complete command", fmt.Sprintf("call %d covered units %d..%d (%s)", calls, prev, j, unitKinds(cover)), "")
 			return
 		case last.Kind == "command":
-			if got != refs[j].skel {
+			if cs.Units[j].Prog == nil {
+				// a hand-written unit: only its boundary (and acceptance) is judged
+				c.Count("literal-units", 1)
+			} else if got != refs[j].skel {
 				c.Violation("result", key, refs[j].skel, got, fmt.Sprintf("call %d, unit %d parsed alone gives a different tree", calls, j))
 				return
 			}
@@ -196,7 +202,22 @@ func c07Unit1(r interface{ IntN(int) int }, i int, rnd *gen.G, last bool) c07Uni
 
 func pick2(r interface{ IntN(int) int }, xs []string) string { return xs[r.IntN(len(xs))] }
 
+// hand-written commands whose extent the generator cannot express
+var c07Literal = []string{
+	// a continued line of an unquoted here-document is one logical line: "foo\<nl>E" is fooE, not the delimiter
+	"cat <<E\nfoo\\\nE\nE\n", "cat <<-A\n\tfoo\\\n\tA\n\tA\n", "cat <<A\n$x\\\nA\nA\n", "cat <<OF\nE\\\nOF\nOF\n",
+	"cat <<E <<F\na\\\nE\nE\nb\\\nF\nF\n", "{ cat <<E\nfoo\\\nE\nE\n}\n",
+	// controls: with a quoted delimiter the backslash is literal text; a continued delimiter line (pinned by the repository's tests)
+	"cat <<'E'\nfoo\\\nE\n", "cat <<EOF\nx\nE\\\nO\\\nF\n",
+}
+
 func c07Gen(c *core.Ctx) {
+	for i, s := range c07Literal {
+		for _, next := range []string{"echo NEXT\n", "\n", "# c\n", "cat <<E\nE\n"} {
+			kind := map[string]string{"echo NEXT\n": "command", "\n": "blank", "# c\n": "comment", "cat <<E\nE\n": "command"}[next]
+			core.Do(c, c07Case{Units: []c07Unit{{Kind: "command", Text: s}, {Kind: kind, Text: next}, {Kind: "command", Text: c07Literal[(i+1)%len(c07Literal)]}}, Kind: "literal"}, c07Exec)
+		}
+	}
 	n := c.Pick(20000, 1000000)
 	for i := 0; i < n; i++ {
 		if !c.Mine() {
